@@ -187,8 +187,8 @@ func (c *Ctx) orderInsensitive(stmts []ast.Stmt, why *string) bool {
 				return false
 			}
 			name := c.calleeName(ce)
-			if !insertCalls[name] && name != "util.Assert" {
-				*why = "calls " + name + src(ce.Fun)
+			if !insertCalls[name] && name != "util.Assert" && !c.noReturn(ce) {
+				*why = "calls " + name
 				return false
 			}
 		case *ast.IfStmt:
@@ -404,7 +404,7 @@ func ruleMapOrder1(c *Ctx) {
 				}
 				why := ""
 				ins := c.orderInsensitive(lit.Body.List, &why)
-				hasAssert := len(c.callsTo(lit.Body, "util.Assert")) > 0
+				hasAssert := len(c.asserted(lit.Body)) > 0
 				switch {
 				case ins && !hasAssert:
 					c.R.OK(owner, desc, ce.Pos(), "callback body is order-insensitive")
